@@ -7,6 +7,8 @@ PROP = dict(
     level="proof",
     engine="kani",
     units=[],
+    # PrecompileSpecId::from_spec_id + the generation/activation lemma are proved in unit `precompile` (claimed by C23)
+    aux_units=["precompile"],
     kani=[dict(crate="kinterp", harness="c05::ops_" + s, bounded=False, timeout=600, mem_gb=12) for s in _SPECS]
          + [dict(crate="kinterp", harness="c05::spec_to_generic_classes", bounded=False, timeout=300, mem_gb=8)],
     technique="Kani: pre/post assertion on every entry of the real instruction table, opcode byte fully symbolic (complete over 256 x 15 Spec types x legacy/EOF mode)",
@@ -14,14 +16,17 @@ PROP = dict(
                "symbolic over all 256 values and dispatched through the real make_instruction_table::<H, SPEC>(); with an empty stack and zero gas "
                "the instruction answers NotActivated / OpcodeNotFound / EOFOpcodeDisabledInLegacy / ReturnContractInNotInitEOF iff the opcode does "
                "not exist at that fork according to an independent activation table written from the EIPs; fork-gated opcodes answer NotActivated "
-               "exactly below their fork and change nothing else; spec_to_generic! sends every SpecId to a Spec type of the same activation class.",
+               "exactly below their fork and change nothing else; spec_to_generic! sends every SpecId to a Spec type of the same activation class. "
+               "PRECOMPILES (Verus, unit precompile): PrecompileSpecId::from_spec_id(spec) == the EIP generation of that fork for EVERY SpecId, and a lemma "
+               "shows the generation table equals the per-address EIP activation table (0x01-0x04 Frontier, 0x05-0x08 Byzantium, 0x09 Istanbul, 0x0a Cancun, "
+               "0x0b.. Prague) for every SpecId and every address.",
     level_note="Trusted: Kani/CBMC; the oracle table in kani/kinterp/src/c05.rs (EIP list); instruction gating is `if const {..}` on SPEC, so it cannot "
-               "depend on interpreter state (that is why one state per opcode suffices). NOT covered: precompile address sets per fork "
-               "(revm-precompile does not go through kani-compiler with its C dependencies; PrecompileSpecId::from_spec_id is not under contract yet); "
+               "depend on interpreter state (that is why one state per opcode suffices). NOT covered: the `Precompiles::{homestead,..,prague}` constructors that materialise the address sets "
+               "(function-local `static OnceBox`, outside Verus; C dependencies under kani-compiler) - only the SpecId -> generation selection is proved; "
                "EOF container validation deciding which opcodes may appear in EOF code.",
     trusted=COMMON_TRUST,
     assumptions=[
         "empty stack + zero gas make every active instruction stop before touching the host; the stub host's unreachable!() proves the host is never reached",
-        "precompile activation part of C05 is not decided by this check",
+        "precompile part: the mapping SpecId -> precompile generation is proved; that each generation's constructor registers exactly its addresses is NOT",
     ],
 )
